@@ -43,7 +43,7 @@ def ref_sound_off(i, notes, pedal, thr):
     return acc
 
 
-def make(n_notes, n_ctrl, two_thr=False, preset=False):
+def make(n_notes, n_ctrl, two_thr=False, preset=False, one_pitch=False):
     names = []
     ann = {}
     for i in range(n_notes):
@@ -74,6 +74,8 @@ def make(n_notes, n_ctrl, two_thr=False, preset=False):
             require(on <= 1000)
             require(dur <= 1000)
             require(60 <= p <= 61)  # two pitch values: equal / different is what matters
+            if one_pitch:  # overlapping notes and re-strikes of one pitch (several channels)
+                require(p == 60)
             notes.append((on, on + dur, p))
         pedal = []
         controls = []
@@ -217,11 +219,12 @@ def _inst(tier):
     if tier == "quick":
         return [{"n_notes": 1, "n_ctrl": 2}, {"n_notes": 2, "n_ctrl": 1},
                 {"n_notes": 1, "n_ctrl": 2, "two_thr": True}, {"n_notes": 2, "n_ctrl": 0},
-                {"n_notes": 1, "n_ctrl": 0, "preset": True, "two_thr": True}, {"n_notes": 1, "n_ctrl": 1, "preset": True}]
+                {"n_notes": 1, "n_ctrl": 0, "preset": True, "two_thr": True}, {"n_notes": 1, "n_ctrl": 1, "preset": True},
+                {"n_notes": 3, "n_ctrl": 1, "one_pitch": True}]
     return [{"n_notes": 1, "n_ctrl": 2}, {"n_notes": 2, "n_ctrl": 1}, {"n_notes": 2, "n_ctrl": 2},
             {"n_notes": 1, "n_ctrl": 3}, {"n_notes": 3, "n_ctrl": 1}, {"n_notes": 2, "n_ctrl": 3},
             {"n_notes": 1, "n_ctrl": 2, "two_thr": True}, {"n_notes": 2, "n_ctrl": 2, "two_thr": True},
-            {"n_notes": 2, "n_ctrl": 0}, {"n_notes": 3, "n_ctrl": 2}]
+            {"n_notes": 2, "n_ctrl": 0}, {"n_notes": 3, "n_ctrl": 2}, {"n_notes": 3, "n_ctrl": 2, "one_pitch": True}]
 
 
 HARNESSES = [
